@@ -17,6 +17,10 @@ func (v *Vue) evalAttributes(ctx VueContext, n *html.Node) (map[string]any, erro
 
 	results := map[string]any{}
 
+	// boundOrder keeps the bound attribute names in source order, so that the output
+	// does not depend on map iteration order.
+	var boundOrder []string
+
 	var newAttrs []html.Attribute
 
 	// First pass: collect static attributes and evaluate bound ones
@@ -46,6 +50,9 @@ func (v *Vue) evalAttributes(ctx VueContext, n *html.Node) (map[string]any, erro
 			if !helpers.IsTruthy(boundValue) {
 				continue
 			}
+			if _, seen := results[boundName]; !seen {
+				boundOrder = append(boundOrder, boundName)
+			}
 			results[boundName] = boundValue
 		default:
 			var err error
@@ -63,7 +70,8 @@ func (v *Vue) evalAttributes(ctx VueContext, n *html.Node) (map[string]any, erro
 	}
 
 	// Second pass: merge bound attributes with static ones
-	for attrName, boundValue := range results {
+	for _, attrName := range boundOrder {
+		boundValue := results[attrName]
 		// Check if there's a static attribute with the same name
 		staticIdx := -1
 		for i, a := range newAttrs {
@@ -370,21 +378,47 @@ func parseValue(s string) interface{} {
 
 // mergeStyles merges static and bound CSS styles, with bound values taking precedence.
 func (v *Vue) mergeStyles(staticStyle, boundStyle string) string {
-	// Parse both styles into maps
-	staticMap := parseStyleMap(staticStyle)
-	boundMap := parseStyleMap(boundStyle)
+	// Parse both styles, keeping the declaration order
+	keys, merged := parseStyleList(staticStyle)
+	boundKeys, boundMap := parseStyleList(boundStyle)
 
-	// Merge: bound values override static ones
-	for k, v := range boundMap {
-		staticMap[k] = v
+	// Merge: bound values override static ones, new properties are appended
+	for _, k := range boundKeys {
+		if _, exists := merged[k]; !exists {
+			keys = append(keys, k)
+		}
+		merged[k] = boundMap[k]
 	}
 
 	// Rebuild style string
-	var styles []string
-	for k, v := range staticMap {
-		styles = append(styles, k+":"+v+";")
+	styles := make([]string, 0, len(keys))
+	for _, k := range keys {
+		styles = append(styles, k+":"+merged[k]+";")
 	}
 	return strings.Join(styles, "")
+}
+
+// parseStyleList parses a CSS style string into its properties in declaration order
+// (each property once, at its first position) and a map of their final values.
+func parseStyleList(style string) ([]string, map[string]string) {
+	values := make(map[string]string)
+	var keys []string
+	for _, part := range strings.Split(style, ";") {
+		part = strings.TrimSpace(part)
+		if part == "" {
+			continue
+		}
+		kv := strings.SplitN(part, ":", 2)
+		if len(kv) != 2 {
+			continue
+		}
+		key := strings.TrimSpace(kv[0])
+		if _, exists := values[key]; !exists {
+			keys = append(keys, key)
+		}
+		values[key] = strings.TrimSpace(kv[1])
+	}
+	return keys, values
 }
 
 // parseStyleMap parses a CSS style string into a map of properties to values.
